@@ -33,13 +33,17 @@ COMPONENTS = {
 ASSUMPTIONS = [
     "write/read errors are not injected at the EXIT exchanges of uiHeartbeat (the protocol itself "
     "disconnects there); time-outs are",
-    "no second fault during the reconnection's own bring-up exchanges (the property names connection failures)",
+    "during the repair's own bring-up only silence at its mode / version / parameters exchange is injected "
+    "(a failing onboarded check ends the manager by design; other second faults are outside the property)",
     "when an interrupted uiHeartbeat leaves the device outside signer mode the operator re-enters the "
     "signer before the follow-up in half of the runs; otherwise only 'no command APDU before bring-up' is demanded",
 ]
 
 KINDS = ["write_err", "read_err_before", "read_err_after", "timeout_before", "timeout_after"]
-SCRIPTS = [("ok", 0), ("absent", 1), ("absent", 2), ("openfail", 1), ("openfail", 2)]
+SCRIPTS = [("ok", 0), ("absent", 1), ("absent", 2), ("openfail", 1), ("openfail", 2),
+           # the connection is re-opened but the bring-up does not complete: silence at its 2nd / 3rd / 4th
+           # exchange (mode, version, parameters) during the first repair attempt
+           ("bringup-timeout", 1), ("bringup-timeout", 2), ("bringup-timeout", 3)]
 BRINGUP = [0x06, 0x43, 0x06, 0x11]
 
 
@@ -84,13 +88,47 @@ def run_one(ch, cfg):
     reconnected = False
     stopped = exc is not None
     probe = {"command": "getPubKey", "keyId": "m/44'/0'/0'/0/0", "version": 1 if v1 else 5}
+    if script[0] == "bringup-timeout":
+        nfollow = max(nfollow, 2)
+    repaired = not is_link_failure        # a bring-up has completed since the link failure
+    bt_pending = script[0] == "bringup-timeout" and is_link_failure
     for i in range(nfollow):
         if stopped:
             break
+        if bt_pending:
+            # first repair attempt: connection opens, bring-up exchange #j gets no answer
+            bt_pending = False
+            if dev.mode != L.MODE_SIGNER and dev.present():
+                dev.mode = L.MODE_SIGNER
+                dev._reset_ops()
+            dev.plugged = True
+            arm = {"at": link.index + script[1]}
+            link.fault_fn = lambda idx, apdu: "timeout_before" if idx == arm["at"] else None
+            m0 = len(link.transport)
+            rep2, exc2 = w.request(probe)
+            link.fault_fn = None
+            ev = link.transport[m0:]
+            xs = [e for e in ev if e[0] == "xchg"]
+            follow_log.append({"reply": rep2, "exc": type(exc2).__name__ if exc2 else None,
+                               "transport": [e[0] if e[0] != "xchg" else "xchg:%02x" % e[2][1]
+                                             for e in ev]})
+            if exc2 is not None:
+                viol.append(("reconnect/manager-stopped:bringup-timeout",
+                             "%s %s at %s; silence at bring-up exchange %d of the repair -> %s: %s" % (
+                                 variant, kind, step, script[1], type(exc2).__name__, exc2)))
+                stopped = True
+                continue
+            if not isinstance(rep2, dict) or rep2.get("errorcode") != errcode:
+                viol.append(("reconnect/reply:bringup-timeout",
+                             "repair whose bring-up timed out answered %r" % (rep2,)))
+            if [x[2][1] for x in xs] != BRINGUP[:script[1] + 1]:
+                viol.append(("reconnect/bring-up-skipped",
+                             "exchanges of the interrupted repair: %s" % [x[2].hex() for x in xs]))
+            continue
         if dev.mode != L.MODE_SIGNER and heal and dev.present():
             dev.mode = L.MODE_SIGNER
             dev._reset_ops()
-        fail_now = is_link_failure and not reconnected and script[0] != "ok" \
+        fail_now = is_link_failure and not reconnected and script[0] in ("absent", "openfail") \
             and attempts_failed < script[1]
         if fail_now:
             if script[0] == "absent":
@@ -229,6 +267,8 @@ MUTANTS = {
     "no-disconnect-before-reconnect": _m(P, "ensure_connection", "self.hsm2dongle.disconnect()", "pass"),
     "reconnect-skips-bring-up": _m(P, "ensure_connection", "self.initialize_device()",
                                    "self.hsm2dongle.connect()"),
+    "flag-cleared-when-link-reopens": _m(P, "ensure_connection", "self.hsm2dongle.disconnect()",
+                                         "self.hsm2dongle.disconnect(); self._comm_issue = False"),
     "comm-issue-not-flagged-on-sign": _m(P, "_sign", "self._comm_issue = True", "pass", 2),
     "comm-issue-not-flagged-on-advance": _m(P, "_advance_blockchain", "self._comm_issue = True", "pass"),
     "reconnect-error-not-reflagged-on-pubkey": _m(
